@@ -67,6 +67,14 @@ def build(tier, seed):
     o3 = [x for x in o3 if x.id.startswith('C03.arena.')]
     for x in o3:
         x.id = 'C19.' + x.id.split('.', 1)[1]
+    # live use stays inside live objects: decomposition of ANY 64-bit specifier / qualifier value (the enumerations are open) under the
+    # bounds and pointer checks -- C10's obligations on the real tables
+    import C10
+    u10, o10, m10 = C10.build(tier, seed)
+    o10 = [x for x in o10 if x.id in ('C10.decompose.any', 'C10.decompose.qualifiers')]
+    for x in o10:
+        x.id = 'C19.live.' + x.id.split('.', 1)[1]
+    o3 += o10; u3 += u10
     meta = dict(level='model_checking', sweep_family='C19', always_sweep=True, functions_under_contract=['rb_tree::container<T>::~container', 'container::destroy_tree', 'container::destroy_node', 'container::make_node', 'container::insert', 'arena::arena', 'arena::~arena', 'arena::allocate', 'arena::make_string'],
                 rule='bounded symbolic construction histories followed by the real destructor under --memory-leak-check; distinct = obligations',
                 assumptions=['bounded: <= %d insertions, <= 3 interned words; the container is instantiated at long keys (the template body is the same for every element type; element destructors run through destroy_node)' % nk,
